@@ -12,19 +12,20 @@ import (
 
 // Stats counts what the replay covered.
 type Stats struct {
-	Groups, Executed, Success, Aborts, Skipped, Timeouts, Unobserved int64
-	HonestSuccess                                                    map[string]int64 // role/mode -> successes of the honest peer
-	ByDeviation                                                      map[string]int64
-	SuccessByDeviation                                               map[string]int64
-	MethodWithoutAuth                                                int64 // observation: NegotiatedAuth names a method although Authentication=false
+	Jobs, Groups, Executed, Success, Aborts, Skipped, Timeouts, Unobserved int64
+	HonestSuccess                                                          map[string]int64 // role/mode -> successes of the honest peer
+	ByDeviation                                                            map[string]int64
+	SuccessByDeviation                                                     map[string]int64
+	MethodWithoutAuth                                                      int64 // observation: NegotiatedAuth names a method although Authentication=false
 }
 
 type failure struct {
-	g   *Group
-	d   *Diff
-	o   Obs
-	key string
-	rel []*Group
+	form string
+	g    *Group
+	d    *Diff
+	o    Obs
+	key  string
+	rel  []*Group
 }
 
 func subset(a, b []string) bool {
@@ -44,10 +45,33 @@ func cfgKey(c Cfg) string {
 // ReplayAll executes every group against the real code (in parallel, order
 // shuffled by the seed), confirms each difference by an immediate second run
 // and records one failure per signature.
-func ReplayAll(c *core.Ctx, groups []*Group) *Stats {
+func ReplayAll(c *core.Ctx, groups []*Group) *Stats { return replayAll(c, groups, "") }
+
+// replayAll: only != "" restricts the run to groups[0] with that answer form
+// ("-" = the plain form); the other groups serve as lookup targets (replay files).
+func replayAll(c *core.Ctx, groups []*Group, only string) *Stats {
 	st := &Stats{HonestSuccess: map[string]int64{}, ByDeviation: map[string]int64{}, SuccessByDeviation: map[string]int64{}}
 	st.Groups = int64(len(groups))
-	order := c.Rand("c03-order").Perm(len(groups))
+	type job struct {
+		g    *Group
+		form string
+	}
+	var jobs []job
+	for _, g := range groups {
+		jobs = append(jobs, job{g, ""})
+		if g.HasForms() && only == "" {
+			for _, f := range Forms[1:] {
+				jobs = append(jobs, job{g, f})
+			}
+		}
+	}
+	if only != "" {
+		jobs = []job{{groups[0], only}}
+		if only == "-" {
+			jobs[0].form = ""
+		}
+	}
+	order := c.Rand("c03-order").Perm(len(jobs))
 	index := map[string]*Group{}
 	byCfg := map[string][]*Group{}
 	for _, g := range groups {
@@ -60,12 +84,13 @@ func ReplayAll(c *core.Ctx, groups []*Group) *Stats {
 	var mu sync.Mutex
 	var fails []failure
 	conform := int64(0)
-	core.ParallelFor(len(groups), 16, func(i int) {
-		g := groups[order[i]]
-		o := Run(g)
+	st.Jobs = int64(len(jobs))
+	core.ParallelFor(len(jobs), 16, func(i int) {
+		g, form := jobs[order[i]].g, jobs[order[i]].form
+		o := Run(g, form)
 		d, mach := Check(g, o, lookup)
 		if mach != "" { // not a verdict about the code: look again before giving up
-			o = Run(g)
+			o = Run(g, form)
 			d, mach = Check(g, o, lookup)
 			if mach != "" {
 				c.Broken("%s", mach)
@@ -100,21 +125,21 @@ func ReplayAll(c *core.Ctx, groups []*Group) *Stats {
 			st.Aborts++
 		}
 		mu.Unlock()
-		c.Eval(g.Key(), true)
+		c.Eval(g.Key()+"/"+form, true)
 		if d == nil {
 			mu.Lock()
 			conform++
 			mu.Unlock()
 			return
 		}
-		o2 := Run(g)
+		o2 := Run(g, form)
 		d2, _ := Check(g, o2, lookup)
 		if d2 == nil || d2.Invariant != d.Invariant {
 			c.Broken("non-reproducible difference for %s: %v, then %v", g.Key(), d, d2)
 			return
 		}
 		mu.Lock()
-		fails = append(fails, failure{g, d, o, g.Key(), nil})
+		fails = append(fails, failure{form, g, d, o, g.Key() + "/" + form, nil})
 		mu.Unlock()
 	})
 	c.Add("traces_validated_against_impl", conform)
@@ -122,11 +147,15 @@ func ReplayAll(c *core.Ctx, groups []*Group) *Stats {
 	// subset of the switches (possibly none), the signature names that subset -- the
 	// other switches are bystanders.
 	failed := map[string]bool{}
-	fkey := func(cf Cfg, devs []string, inv string) string {
-		return (&Group{Cfg: cf, Devs: devs}).Key() + "/" + inv
+	fkey := func(cf Cfg, devs []string, inv, form string) string {
+		g := &Group{Cfg: cf, Devs: devs}
+		if !g.HasForms() {
+			form = ""
+		}
+		return g.Key() + "/" + inv + "/" + form
 	}
 	for _, f := range fails {
-		failed[fkey(f.g.Cfg, f.g.Devs, f.d.Invariant)] = true
+		failed[fkey(f.g.Cfg, f.g.Devs, f.d.Invariant, f.form)] = true
 	}
 	root := func(f failure) []string {
 		best := f.g.Devs
@@ -141,7 +170,7 @@ func ReplayAll(c *core.Ctx, groups []*Group) *Stats {
 			if sub == nil {
 				sub = []string{}
 			}
-			if len(sub) < len(best) && failed[fkey(f.g.Cfg, sub, f.d.Invariant)] {
+			if len(sub) < len(best) && failed[fkey(f.g.Cfg, sub, f.d.Invariant, f.form)] {
 				best = sub
 			}
 		}
@@ -151,7 +180,7 @@ func ReplayAll(c *core.Ctx, groups []*Group) *Stats {
 	sort.Slice(fails, func(i, j int) bool { return fails[i].key < fails[j].key })
 	seen := map[string]int{}
 	for _, f := range fails {
-		sig := Signature(f.g, f.d)
+		sig := Signature(f.g, f.form, f.d)
 		if r := root(f); len(r) != len(f.g.Devs) {
 			continue // reported under its root deviation
 		}
@@ -168,7 +197,7 @@ func ReplayAll(c *core.Ctx, groups []*Group) *Stats {
 			}
 		}
 		c.Fail(core.Failure{Signature: sig, Detail: f.d.Detail,
-			Scenario: map[string]any{"kind": "HandshakeEvil", "group": f.g, "related": f.rel, "observed": f.o}})
+			Scenario: map[string]any{"kind": "HandshakeEvil", "group": f.g, "form": f.form, "related": f.rel, "observed": f.o}})
 	}
 	c.Set("failing_scenarios", len(fails))
 	c.Set("failing_signatures", len(seen))
@@ -189,6 +218,7 @@ func ReplayFile(c *core.Ctx) bool {
 		Scenario struct {
 			Kind    string   `json:"kind"`
 			Group   *Group   `json:"group"`
+			Form    string   `json:"form"`
 			Related []*Group `json:"related"`
 		} `json:"scenario"`
 	}
@@ -196,7 +226,11 @@ func ReplayFile(c *core.Ctx) bool {
 		c.Broken("not a HandshakeEvil replay file")
 		return true
 	}
-	st := ReplayAll(c, append([]*Group{rf.Scenario.Group}, rf.Scenario.Related...))
+	form := rf.Scenario.Form
+	if form == "" {
+		form = "-"
+	}
+	st := replayAll(c, append([]*Group{rf.Scenario.Group}, rf.Scenario.Related...), form)
 	c.Set("replayed", st.Executed)
 	return true
 }
